@@ -48,6 +48,24 @@ from .simple_types import XsdSimpleType
 from .attributes import XsdAttribute
 from .wildcards import XsdAnyElement
 
+
+def has_element_children(elem: ElementType) -> bool:
+    """Tests if an element has element children (comments and PIs are not counted)."""
+    return any(not callable(child.tag) for child in elem)
+
+
+def get_character_data(elem: ElementType) -> Optional[str]:
+    """
+    The character data of an element without element children: its text joined
+    with the tails of its comment and PI children (tree sources that keep these
+    nodes split the character data of the element around them).
+    """
+    if not len(elem) or has_element_children(elem):
+        return elem.text
+    parts = [elem.text or '']
+    parts.extend(child.tail or '' for child in elem)
+    return ''.join(parts) or None
+
 if TYPE_CHECKING:
     from .attributes import XsdAttributeGroup  # noqa: F401
     from .groups import XsdGroup  # noqa: F401
@@ -738,7 +756,7 @@ class XsdElement(XsdComponent, ParticleMixin,
             elif self.fixed is not None:
                 reason = _("xsi:nil='true' but the element has a fixed value")
                 context.validation_error(validation, self, reason, obj)
-            elif obj.text is not None or len(obj):
+            elif get_character_data(obj) is not None or has_element_children(obj):
                 reason = _("xsi:nil='true' but the element is not empty")
                 context.validation_error(validation, self, reason, obj)
             else:
@@ -775,11 +793,11 @@ class XsdElement(XsdComponent, ParticleMixin,
                 context.validation_error(validation, self, reason, obj)
 
         else:
-            if len(obj):
+            if has_element_children(obj):
                 reason = _("a simple content element can't have child elements")
                 context.validation_error(validation, self, reason, obj)
 
-            text = obj.text
+            text = get_character_data(obj)
             if self.fixed is not None:
                 if not text:
                     text = self.fixed
